@@ -755,7 +755,10 @@ def fnTag (P : Policy) (c : TagClass) (ts : List Tag) (a : Arr) : Tag :=
   match c with
   | .ufunc => P.ufunc ts a
   | .reduce => P.reduce (ts.headD .plain) a
-  | .keep => match ts.headD .plain with | .field g => .field g | _ => bareTag a
+  | .keep => match ts.headD .plain with
+    | .field g => .field g
+    | .plain => .plain          -- a method of an ndarray returns an ndarray, 0-d included (`np.where(s, s, s).astype(bool)`)
+    | .scalar => bareTag a
   | .scalarIf0d => match ts.headD .plain with
     | .field g => if a.shape.isEmpty then .scalar else .field g
     | _ => bareTag a
